@@ -3,6 +3,7 @@ import OpusProofs.EncSkelCbr
 import OpusProofs.EncSkelCtl
 import OpusProofs.EncSkelMs
 import OpusProofs.EncSkelCvbr
+import OpusProofs.EncSkelMsRate
 /-
   Property C05 — "Encoder honours the buffer limit, exact CBR size and the bitrate target".
 
@@ -167,6 +168,113 @@ theorem ms_encode_ret_le_out (n fs fsz vbr bitrate rateSum maxData : Int) (xs : 
        msMaxBytes vbr bitrate rateSum n fs fsz maxData) :=
   Opus.EncSkel.Proofs.ms_encode_ret_le_out n fs fsz vbr bitrate rateSum maxData xs hn hlen hsmall hauto hok
 
+/-! ### Multistream rate allocation (src/opus_multistream_encoder.c:668-798; model `OpusModel/EncSkel/MsRate.lean`,
+    tied per stream on a layouts × rates × frame-sizes grid by suite op `msrate`) -/
+
+/-- **Per-stream floors.**  For every layout the create functions admit (`MsLayoutOk`), every legal frame size and
+    every bit-rate setting the ctl admits for `nch ≥ nb_streams + nb_coupled` input channels (AUTO, MAX,
+    500·nch … 300000·nch): every stream's rate is ≥ 500 b/s; in the surround / plain allocation a coupled stream gets
+    ≥ 2·channel_offset ≥ 4000 b/s and every other non-LFE stream ≥ channel_offset ≥ 2000 b/s (so the floor of :794 only
+    ever acts on the LFE stream); in the ambisonics allocation all streams get the same rate.  Hence each stream's
+    `OPUS_SET_BITRATE(bitrates[s])` is accepted and stores a value inside that encoder's range 500 … 300000·channels. -/
+theorem ms_rate_floor (l : MsLayout) (hl : MsLayoutOk l) (fs fsz nch br : Int)
+    (hfs : fs = 8000 ∨ fs = 12000 ∨ fs = 16000 ∨ fs = 24000 ∨ fs = 48000) (hleg : legalFrame fs fsz = true)
+    (hn1 : l.nbStreams + l.nbCoupled ≤ nch) (hn2 : nch ≤ 255) (hbr : MsBrOk nch br) (i : Int) :
+    500 ≤ msRate l fs fsz br i ∧
+    (l.ambisonics = false → i < l.nbCoupled → 4000 ≤ msRate l fs fsz br i) ∧
+    (l.ambisonics = false → l.nbCoupled ≤ i → i ≠ l.lfeStream → 2000 ≤ msRate l fs fsz br i) ∧
+    (l.ambisonics = true → msRate l fs fsz br i = msRate l fs fsz br 0) ∧
+    (∃ v, msStreamUserBitrate l fs fsz br i = some v ∧ 500 ≤ v ∧ v ≤ 300000 * (if i < l.nbCoupled then 2 else 1)) := by
+  have h500 : 500 ≤ msRate l fs fsz br i := by unfold msRate; omega
+  refine ⟨h500, ?_, ?_, ?_, ?_⟩
+  · intro ha hi
+    exact ((msSur_floor l fs fsz nch br (surIn_of l hl fs fsz nch br hfs hleg hn1 hn2 hbr) ha i).2.1 hi).2
+  · intro ha hi hlf
+    exact ((msSur_floor l fs fsz nch br (surIn_of l hl fs fsz nch br hfs hleg hn1 hn2 hbr) ha i).2.2 hi hlf).2
+  · intro ha
+    rw [msRate_ambi l fs fsz br i ha, msRate_ambi l fs fsz br 0 ha]
+  · obtain ⟨v, h1, h2, h3, -⟩ := msStream_ctl l fs fsz br i h500
+    exact ⟨v, h1, h2, h3⟩
+
+/-- **What the sum of the rates is** (the invariant of the code, found by reading it — it is NOT "Σ ≤ total"):
+    surround / plain: with `B` the total (`bitrate_bps`, or the AUTO / MAX formula), if `B` covers the offsets
+    (`channel_offset·nb_normal + lfe_offset·nb_lfe ≤ B`) then `B − nb_normal − 1 ≤ Σ ≤ B`; if it does not, every stream
+    keeps its offset and `Σ` EXCEEDS `B`: `channel_offset·nb_normal + 500·nb_lfe ≤ Σ ≤ channel_offset·nb_normal +
+    lfe_offset·nb_lfe`.  Ambisonics: `total − nb_streams < Σ ≤ total` always. -/
+theorem ms_rate_sum (l : MsLayout) (hl : MsLayoutOk l) (fs fsz nch br : Int)
+    (hfs : fs = 8000 ∨ fs = 12000 ∨ fs = 16000 ∨ fs = 24000 ∨ fs = 48000) (hleg : legalFrame fs fsz = true)
+    (hn1 : l.nbStreams + l.nbCoupled ≤ nch) (hn2 : nch ≤ 255) (hbr : MsBrOk nch br) :
+    (l.ambisonics = false →
+      let v := msSurVals l fs fsz br
+      (v.channelOffset * v.nbNormal + v.lfeOffset * v.nbLfe ≤ v.bitrate →
+         v.bitrate - v.nbNormal - 1 ≤ msRateSum l fs fsz br ∧ msRateSum l fs fsz br ≤ v.bitrate) ∧
+      (v.bitrate < v.channelOffset * v.nbNormal + v.lfeOffset * v.nbLfe →
+         v.channelOffset * v.nbNormal + 500 * v.nbLfe ≤ msRateSum l fs fsz br ∧
+         msRateSum l fs fsz br ≤ v.channelOffset * v.nbNormal + v.lfeOffset * v.nbLfe)) ∧
+    (l.ambisonics = true →
+      msAmbiTotal l fs fsz br - l.nbStreams < msRateSum l fs fsz br ∧ msRateSum l fs fsz br ≤ msAmbiTotal l fs fsz br) := by
+  constructor
+  · intro ha
+    exact msSur_sum l fs fsz nch br (surIn_of l hl fs fsz nch br hfs hleg hn1 hn2 hbr) ha
+  · intro ha
+    obtain ⟨-, -, -, -, -, q1, q2⟩ := legal_rate fs fsz hfs hleg
+    obtain ⟨R, -, -, -, s1, s2, -⟩ := msAmbi_sum l hl fs fsz nch br ha (by omega) (by omega) q1 q2 hn1 hn2 hbr
+    exact ⟨s1, s2⟩
+
+/-- **No 32-bit overflow** in `rate_allocation` and in the clamp arithmetic of :882-886 — for every layout with
+    `nb_channels = nb_streams + nb_coupled` (everything the surround / ambisonics / projection create functions make), and
+    more generally whenever a layout with a coupled or LFE stream has at most 13 input channels per coded channel. -/
+theorem ms_rate_no_overflow (l : MsLayout) (hl : MsLayoutOk l) (fs fsz nch br : Int)
+    (hfs : fs = 8000 ∨ fs = 12000 ∨ fs = 16000 ∨ fs = 24000 ∨ fs = 48000) (hleg : legalFrame fs fsz = true)
+    (hn1 : l.nbStreams + l.nbCoupled ≤ nch) (hn2 : nch ≤ 255) (hbr : MsBrOk nch br)
+    (hcap : (0 < l.nbCoupled ∨ l.lfeStream ≠ -1) → nch ≤ 13 * (l.nbStreams + l.nbCoupled - msNbLfe l)) :
+    msFits l fs fsz br = true ∧ fitsI32 (3 * msRateSum l fs fsz br) = true ∧ fitsI32 (3 * br) = true ∧
+    0 < 3 * 8 * fs / fsz := by
+  obtain ⟨c1, c2, -, c4⟩ := msClamp_fits l hl fs fsz nch br hfs hleg hn1 hn2 hbr
+  refine ⟨?_, c1, c2, c4⟩
+  obtain ⟨-, -, -, -, -, q1, q2⟩ := legal_rate fs fsz hfs hleg
+  by_cases ha : l.ambisonics = true
+  · exact msFits_ambi l hl fs fsz nch br ha (by omega) (by omega) q1 q2 hn1 hn2 hbr
+  · have ha' : l.ambisonics = false := by cases h : l.ambisonics <;> simp_all
+    exact msFits_sur l fs fsz nch br (surIn_of l hl fs fsz nch br hfs hleg hn1 hn2 hbr) ha' hcap
+
+/-- … the side condition holds by itself when the input channels are exactly the coded channels. -/
+theorem ms_rate_no_overflow_standard (l : MsLayout) (hl : MsLayoutOk l) (fs fsz br : Int)
+    (hfs : fs = 8000 ∨ fs = 12000 ∨ fs = 16000 ∨ fs = 24000 ∨ fs = 48000) (hleg : legalFrame fs fsz = true)
+    (hbr : MsBrOk (l.nbStreams + l.nbCoupled) br) : msFits l fs fsz br = true :=
+  msFits_standard l hl fs fsz br hfs hleg hbr
+
+/-- … and it is NECESSARY: a layout `opus_multistream_encoder_create` accepts (30 input channels, 28 of them muted,
+    one coupled stream) with a bit-rate its ctl accepts (9 Mb/s ≤ 300000·30) makes `channel_rate*coupled_ratio` of
+    :729 overflow `int` (4488000·512).  Reproduced on the real library: UBSan "signed integer overflow" at
+    opus_multistream_encoder.c:729; without the sanitizer the stream is given 4000 b/s instead of the 600000 b/s its
+    encoder would accept.  FINDING reported to the coordinator (not a violation of C05's size clauses). -/
+theorem ms_rate_overflow_generic :
+    msCtlBitrate 30 9000000 = some 9000000 ∧
+    MsLayoutOk { nbStreams := 1, nbCoupled := 1, lfeStream := -1, ambisonics := false } ∧
+    (msSurVals { nbStreams := 1, nbCoupled := 1, lfeStream := -1, ambisonics := false } 48000 960 9000000).channelRate = 4488000 ∧
+    msFits { nbStreams := 1, nbCoupled := 1, lfeStream := -1, ambisonics := false } 48000 960 9000000 = false :=
+  msFits_counterexample
+
+/-- **`ms_encode_ret_le_out` with the real allocation and no hypothesis on it.**  For every layout, legal frame size,
+    VBR / CBR, and every bit-rate setting incl. OPUS_AUTO (where the CBR clamp `3*rate_sum/(3*8*Fs/frame_size)` of :882
+    has no explicit lower bound: the allocated sum is always ≥ 9600 b/s per stream, worth ≥ `smallest_packet` bytes):
+    if `max_data_bytes ≥ smallest_packet` (else OPUS_BUFFER_TOO_SMALL), then for all per-stream behaviours within the
+    single-stream contract every stream is handed a legal budget, `1 ≤ ret ≤ max_data_bytes`, and with VBR off `ret` is
+    exactly the clamped size. -/
+theorem ms_encode_ret_le_out_alloc (l : MsLayout) (hl : MsLayoutOk l) (fs fsz vbr br maxData : Int) (xs : List MsStream)
+    (hfs : fs = 8000 ∨ fs = 12000 ∨ fs = 16000 ∨ fs = 24000 ∨ fs = 48000) (hleg : legalFrame fs fsz = true)
+    (hlen : (xs.length : Int) = l.nbStreams) (hsmall : msSmallest l.nbStreams fs fsz ≤ maxData)
+    (hok : msAllOk l.nbStreams fs fsz vbr (msMaxBytesAlloc l vbr br fs fsz maxData) xs 0 0) :
+    msBudgetsOk l.nbStreams fs fsz (msMaxBytesAlloc l vbr br fs fsz maxData) xs 0 0 ∧
+    1 ≤ msLoop l.nbStreams fs fsz vbr (msMaxBytesAlloc l vbr br fs fsz maxData) xs 0 0 ∧
+    msLoop l.nbStreams fs fsz vbr (msMaxBytesAlloc l vbr br fs fsz maxData) xs 0 0 ≤ maxData ∧
+    (vbr = 0 → msLoop l.nbStreams fs fsz vbr (msMaxBytesAlloc l vbr br fs fsz maxData) xs 0 0 =
+       msMaxBytesAlloc l vbr br fs fsz maxData) ∧
+    msSmallest l.nbStreams fs fsz ≤ 3 * msRateSum l fs fsz OPUS_AUTO / (3 * 8 * fs / fsz) :=
+  let h := Opus.EncSkel.Proofs.ms_encode_ret_le_out_alloc l hl fs fsz vbr br maxData xs hfs hleg hlen hsmall hok
+  ⟨h.1, h.2.1, h.2.2.1, h.2.2.2, ms_auto_enough l hl fs fsz hfs hleg⟩
+
 /-- Clause "with constrained VBR the long-term average rate does not exceed the requested bitrate beyond
     a small tolerance", integer part (P2): the bit-reservoir recursion of celt_encoder.c:1785-1808 /
     :2317-2372 (`cvbrStep`, tied by suite op `cvbrrel`) keeps `0 ≤ vbr_reservoir ≤ vbr_rate` for EVERY
@@ -231,6 +339,20 @@ example : lowBudgetGate (budgetSt exSt (exOr 0) 960 2) 960 (sizeBudget (analysis
 example : encArgsOk 48000 2 2049 = true ∧ (encCtl (encInit 48000 2 2049) (.set .bitrate 64000)).2 = Ret.ok := by decide +kernel
 /-- two streams, 20 ms, 255 bytes: the first stream gets 252 bytes (2 reserved for its length), the second the rest. -/
 example : msCurrMax 2 48000 960 255 0 0 = 252 ∧ msCurrMax 2 48000 960 255 254 1 = 1 ∧ msSmallest 2 48000 960 = 3 := by decide +kernel
+/-- 5.1 surround (4 streams, 2 coupled, LFE last), 48 kHz, 20 ms, 256 kb/s: rates 95120+95120+57560+8195 = 255995,
+    within nb_normal+1 = 6 of the total … -/
+example : msRates { nbStreams := 4, nbCoupled := 2, lfeStream := 3, ambisonics := false } 48000 960 256000 = [95120, 95120, 57560, 8195] ∧
+    msRateSum { nbStreams := 4, nbCoupled := 2, lfeStream := 3, ambisonics := false } 48000 960 256000 = 255995 ∧
+    msFits { nbStreams := 4, nbCoupled := 2, lfeStream := 3, ambisonics := false } 48000 960 256000 = true ∧
+    MsLayoutOk { nbStreams := 4, nbCoupled := 2, lfeStream := 3, ambisonics := false } ∧ MsBrOk 6 256000 := by
+  refine ⟨by decide +kernel, by decide +kernel, by decide +kernel, ⟨by decide, by decide, by decide, by decide, Or.inr (by decide), fun h => by cases h⟩, Or.inr (Or.inr (by decide))⟩
+/-- … and at 3000 b/s (the ctl minimum for 6 channels) the offsets win: Σ = 10707 > 3000. -/
+example : msRates { nbStreams := 4, nbCoupled := 2, lfeStream := 3, ambisonics := false } 48000 960 3000 = [4000, 4000, 2000, 707] := by
+  decide +kernel
+/-- OPUS_AUTO, CBR, two mono streams, 2.5 ms at 8 kHz: rate_sum 68000 → clamp 21 bytes ≥ smallest_packet 3. -/
+example : msRateSum { nbStreams := 2, nbCoupled := 0, lfeStream := -1, ambisonics := false } 8000 20 OPUS_AUTO = 68000 ∧
+    msMaxBytesAlloc { nbStreams := 2, nbCoupled := 0, lfeStream := -1, ambisonics := false } 0 OPUS_AUTO 8000 20 4000 = 21 ∧
+    msSmallest 2 8000 20 = 3 := by decide +kernel
 /-- 64 kb/s, 20 ms: vbr_rate = 10240; a frame that wants 400 bytes with a full reservoir gets 160. -/
 example : cvbrStep 10240 10240 1275 400 false = (10240, 160) ∧ cvbrStep 10240 0 1275 100 false = (0, 160) := by decide +kernel
 
